@@ -486,4 +486,20 @@ example : hasMember (writeItem (present (fun _ _ => true) true) sampleDoc) "name
     ∧ hasMember (writeItem envJson sampleDoc) "nameMap" = false
     ∧ hasMember (writeItem envJson sampleDoc) "name" = true := by decide +kernel
 
+/-- "none ignored, none attached to the wrong property" has a converse the reader must also meet: a member
+the vocabulary does not know is NOT attached to any property.  For the regenerated read tables: an object
+with an `@context` member (any value, any position) decodes exactly as without it; and the same holds
+for every member name that no read row of any struct mentions. -/
+theorem C05_context_ignored (n : Nat) (j : J) (ms : JMembers) :
+    loadItem envJson (.obj (JMembers.insertAt n (nm "@context") j ms)) = loadItem envJson (.obj ms) := by
+  apply loadItem_insert_unknown envJson (nm "@context") j (by decide +kernel)
+  intro k
+  cases k <;> decide +kernel
+
+theorem C05_unknown_member_ignored (name : Str) (hne : name ≠ nm "type")
+    (h : ∀ k : Kind, envJson.rrow k.goName name = none ∧ envJson.rrowMap k.goName name = none)
+    (n : Nat) (j : J) (ms : JMembers) :
+    loadItem envJson (.obj (JMembers.insertAt n name j ms)) = loadItem envJson (.obj ms) :=
+  loadItem_insert_unknown envJson name j hne h n ms
+
 end APModel.Deep
